@@ -301,6 +301,20 @@ def rule_accounting(ctx, r):
                 r.fail(f.name, "accounting", "stream accounting identities broken (totals %s, advances %s = %s, adler refresh %s)" % (bool(ok_tot), ok_adv, amts, ok_ad))
         if n == 0:
             r.fail(f.name, "accounting", "no path calls %s" % call)
+        # forwarding: a call that is not handed to the Rust API is refused only for a missing stream part or an invalid flush
+        # value (an Option / Result discriminant) — never depending on buffer lengths, contents or a valid flush value
+        for x in ev.rows:
+            if x.outcome[0] != "return" or calls_named(x, call):
+                continue
+            other = [a for a, s in x.atoms if a[0] != "discr"]
+            is_err = x.ret is not None and ((x.ret[0] == "agg" and x.ret[2] == "Err") or
+                                            (x.ret[0] in ("call", "pure") and "FromResidual" in str(x.ret[1])))
+            if not other and is_err:
+                r.ok(f.name, "forwarding", "early exits depend only on a missing stream part / invalid flush and return an error")
+            else:
+                r.fail(f.name, "forwarding", "%s can return %s without calling %s on a path that tests %s: for those arguments the C call "
+                       "does not do what the Rust call does" % (fname.split("::")[-1], tstr(x.ret)[:60] if x.ret else "?", call.split("::")[-1],
+                                                                [tstr(a)[:80] for a in other][:3]), where=first_span(x), path=row_path(x))
     # into_mz_stream: pointer and count come from the same slice
     f = c.fn("into_mz_stream")
     ctx.touched(f)
